@@ -85,6 +85,11 @@ StageSquares(i, b) ==
            [] i = 4 -> {0, 63}                                                                                   \* K
            [] i \in {5, 6} -> LET k == CHOOSE q \in Squares : b[q] = "k"
                               IN {t \in Squares : t # k /\ Abs(FileOf(t) - FileOf(k)) = Abs(RankOf(t) - RankOf(k))})
+    [] Family \in {"EPEDGEw", "EPEDGEb"} ->   \* rook-pawn double push with an enemy pawn across the board edge (and none where a capturer must stand)
+        (CASE i = 1 -> RankSet(1) \cap FilesOf({0, 7})                                                            \* P on a2 / h2
+           [] i = 2 -> {t \in Squares : RankOf(t) \in 2..4 /\ \E q \in Where(b, "P") : FileOf(t) \in {7 - FileOf(q), FileOf(q) + 1, FileOf(q) - 1}}   \* p: opposite edge file or the real neighbour, ranks 3..5
+           [] i = 3 -> {60, 62, 49, 21}                                                                           \* k
+           [] i = 4 -> {4, 6, 9, 42})                                                                             \* K
     [] Family = "EPALLw" ->     \* every file: White pushes, Black captures, kings on a few far squares
         (CASE i = 1 -> RankSet(1)
            [] i = 2 -> {t \in RankSet(3) : \E q \in Where(b, "P") : Abs(FileOf(q) - FileOf(t)) = 1}
@@ -121,6 +126,7 @@ StageMen ==
     [] Family \in {"ROOKCAPw", "ROOKCAPb"} -> << {"k"}, {"r"}, {"K"} >>
     [] Family \in {"EPRRw", "EPRRb"} -> << {"P"}, {"p"}, {"k"}, {"K"}, {"R", "Q"}, {"R", "Q"} >>
     [] Family \in {"EPBBw", "EPBBb"} -> << {"P"}, {"p"}, {"k"}, {"K"}, {"B", "Q"}, {"B", "Q"} >>
+    [] Family \in {"EPEDGEw", "EPEDGEb"} -> << {"P"}, {"p"}, {"k"}, {"K"} >>
     [] Family = "EPALLw" -> << {"P"}, {"p"}, {"k"}, {"K"} >>
     [] Family = "EPALLb" -> << {"p"}, {"P"}, {"K"}, {"k"} >>
     [] Family = "EPXw" -> << {"P"}, {"p"}, {"k"}, {"K"}, {"R","B","Q"} >>
@@ -133,10 +139,10 @@ StageMen ==
     [] OTHER -> << >>
 NStages == Len(StageMen)
 
-MirroredFamilies == {"PINb", "EP2b", "ROOKCAPb", "EPRRb", "EPBBb"}     \* built with White's men, then colour-mirrored
+MirroredFamilies == {"PINb", "EP2b", "ROOKCAPb", "EPRRb", "EPBBb", "EPEDGEb"}     \* built with White's men, then colour-mirrored
 
 StmChoices ==
-  CASE Family \in {"EPw","EPXw","EPALLw","EP2w","EP2b","ROOKCAPw","ROOKCAPb","EPRRw","EPRRb","EPBBw","EPBBb"} -> {"w"}
+  CASE Family \in {"EPw","EPXw","EPALLw","EP2w","EP2b","ROOKCAPw","ROOKCAPb","EPRRw","EPRRb","EPBBw","EPBBb","EPEDGEw","EPEDGEb"} -> {"w"}
     [] Family \in {"EPb","EPXb","EPALLb"} -> {"b"}
     [] Family \in {"PINw","PINb"} -> {"w"}
     [] OTHER -> {"w","b"}
@@ -317,7 +323,7 @@ LemmasOK(p, ms) ==
   /\ (Lemmas >= 2) => Assert(Lemma2(p, ms), <<"spec lemma 2 (mirror/flip) fails at", WriteFen(p)>>)
 
 FirstPly(p, ms) ==   \* EP families: the first ply is the double push of the staged pawn
-  IF depth = 0 /\ Family \in {"EPw","EPb","EPXw","EPXb","EPALLw","EPALLb","EP2w","EP2b","EPRRw","EPRRb","EPBBw","EPBBb"} THEN {m \in ms : IsDouble(p, m)} ELSE ms
+  IF depth = 0 /\ Family \in {"EPw","EPb","EPXw","EPXb","EPALLw","EPALLb","EP2w","EP2b","EPRRw","EPRRb","EPBBw","EPBBb","EPEDGEw","EPEDGEb"} THEN {m \in ms : IsDouble(p, m)} ELSE ms
 
 Play ==
   /\ stage = Done
